@@ -834,7 +834,7 @@ def c19(case, F):
         if d is None or d["state"] != "result" or f["submit"]["spec"].get("k") != "nested":
             continue
         for path, info, spec in _iter_nested(d["value"], f["submit"]["spec"], name):
-            if (spec.get("kw") or {}).get("context") == "fork" and info.get("construct") == "ok":
+            if ((spec.get("kw") or {}).get("context") == "fork" or spec.get("default_method") == "fork") and info.get("construct") == "ok":
                 out["viol"].append(("fork_allowed_in_worker", "%s: a fork-context executor was constructed at depth %r" % (path, info.get("depth"))))
     # no process spawned beyond the limit
     if limit > 0:
@@ -857,7 +857,7 @@ def _mark_fork(val, spec):
     if not (isinstance(val, list) and len(val) == 3 and val[0] == "nested"):
         return
     info = val[2]
-    info["fork_requested"] = (spec.get("kw") or {}).get("context") == "fork"
+    info["fork_requested"] = (spec.get("kw") or {}).get("context") == "fork" or spec.get("default_method") == "fork"
     subs = spec.get("sub", [])
     for item, sspec in zip(info.get("sub", []) or [], subs):
         if item[1] == "value" and isinstance(item[2], list) and item[2] and item[2][0] == "nested":
@@ -995,7 +995,7 @@ def c18(case, F):
 
 
 # ------------------------------------------------------------------ C20
-def _census_key(r):
+def _census_key(r, parent_pid=None):
     kids = {}
     for c in r.get("children", []):
         cmd = c["cmd"]
@@ -1006,7 +1006,12 @@ def _census_key(r):
     for t in r.get("threads", []):
         base = t.split("-")[0] if t.startswith("Thread-") else t
         th[base] = th.get(base, 0) + 1
-    return {"fds": r.get("fds"), "threads": th, "children": kids, "shm": len(r.get("shm") or [])}
+    # the parent's own named semaphores: sem.loky-<pid>-* of other (killed) processes are swept by the
+    # tracker when the tree ends and are not parent-side resources
+    import re as _re
+
+    mine = [n for n in (r.get("shm") or []) if not (_re.match(r"sem\.loky-(\d+)-", n) and parent_pid is not None and int(_re.match(r"sem\.loky-(\d+)-", n).group(1)) != parent_pid)]
+    return {"fds": r.get("fds"), "threads": th, "children": kids, "shm": len(mine)}
 
 
 def c20(case, F):
@@ -1020,7 +1025,7 @@ def c20(case, F):
             cens[c["a"]["tag"]] = e["r"]
     if "after_1" not in cens or "after_1+N" not in cens:
         return v
-    a, b = _census_key(cens["after_1"]), _census_key(cens["after_1+N"])
+    a, b = _census_key(cens["after_1"], F.driver_pid), _census_key(cens["after_1+N"], F.driver_pid)
     c20.last = (a, b)
     N = case.get("meta", {}).get("N")
     for dim in ("fds", "threads", "children", "shm"):
